@@ -62,11 +62,6 @@ Definition m_rawset (qw:N) (d:desc) (b:buf) (v:N) : res :=
   match set_via m_ldq m_stq qw d b v with Ok b' => RBuf (Some b') | OOB _ => ROob | Unmodelled => RUnmod end.
 
 (* ---- reference side: by format name and field enumerator name ---- *)
-Fixpoint find_spec (ss:list sformat) (n:string) : option sformat :=
-  match ss with
-  | [] => None
-  | s :: r => if String.eqb (sp_name s) n then Some s else find_spec r n
-  end.
 Definition s_get (fmt field:string) (b:buf) : res :=
   match find_spec all_specs fmt with
   | Some s => match find_sfield (sp_fields s) field with
